@@ -4,7 +4,7 @@ CONSTANTS
   Tag <- Tag3
   RevTag <- Rev3
   DaySteps <- Days6
-  ReadFaultKinds <- RF_corrupt
+  ReadFaultKinds <- RF_all
   Delta = 10
   AgeCap = 91
   MaxRefresh = 6
